@@ -37,6 +37,9 @@ var c04Carriers = []carrier{
 	{"aria", "A", func(s string) string { return "<span aria-hidden=\"true\">" + s + "</span>" }},
 	{"div-hidden", "A", func(s string) string { return "<div hidden><p>" + s + " " + s + "b</p></div>" }},
 	{"p-dn", "A", func(s string) string { return "<p style=\"display:none\">" + s + "</p>" }},
+	{"hidden+style", "A", func(s string) string { return "<span style=\"color:red\" hidden>" + s + "</span>" }},
+	{"aria+style", "A", func(s string) string { return "<span style=\"color:red\" aria-hidden=\"true\">" + s + "</span>" }},
+	{"p-hidden+style", "A", func(s string) string { return "<p style=\"color:red\" hidden>" + s + "</p>" }},
 	{"form", "B", func(s string) string { return "<form action=\"/x\">" + s + "</form>" }},
 	{"input", "B", func(s string) string { return "<input type=\"text\" value=\"" + s + "\">" }},
 	{"button", "B", func(s string) string { return "<button>" + s + "</button>" }},
@@ -49,6 +52,8 @@ var c04Carriers = []carrier{
 	{"iframe", "B", func(s string) string { return "<iframe src=\"http://frames.example.net/f\">" + s + "</iframe>" }},
 	{"ctl-aria-false", "C", func(s string) string { return "<span aria-hidden=\"false\">" + s + "</span>" }},
 	{"ctl-display-block", "C", spanStyle("display:block")},
+	{"ctl-style", "C", spanStyle("color:red")},
+	{"ctl-p-style", "C", func(s string) string { return "<p style=\"color:red\">" + s + "</p>" }},
 	{"obs-dn-space-colon", "O", spanStyle("display : none")},
 	{"obs-dn-css-comment", "O", spanStyle("display:/*x*/none")},
 }
@@ -343,7 +348,7 @@ func init() {
 		ID:        "C04",
 		DesignRef: "§5 C04",
 		Rule: "fixed host skeleton (article with paragraph, list, layout table, data table, three figures, twitter embed) with 11 slots {top, between paragraphs, inside paragraph, li, layout cell, data cell, caption, caption with link, directly in figure, twitter embed, head}; " +
-			"every multiset of <= 2 (quick) / <= 3 (thorough) (carrier, slot) placements over 28 carriers (14 hidden/non-rendered, 10 non-reading, 2 negative controls, 2 observe-only CSS spellings), each holding a unique secret token. " +
+			"every multiset of <= 2 (quick) / <= 3 (thorough) (carrier, slot) placements over 33 carriers (17 hidden/non-rendered incl. hidden elements that also carry a style shared with a visible control, 10 non-reading, 4 visible controls, 2 observe-only CSS spellings), each holding a unique secret token. " +
 			"Oracle: secrets whose holder (judged on the parsed tree) is script/style/head/comment/hidden never occur in Text nor in result.Node outside embed placeholders; secrets in form controls/noscript/svg/object/applet/unrecognised iframe never occur unless nested in a retained data table or figure. Non-trivial = >= 1 secret and >= 100 words retained.",
 		Enumerate: c04Enumerate,
 		Check:     c04Check,
